@@ -50,70 +50,81 @@ def expandSegmentLap (pm : PMsg) (m : Msg) : Msg :=
   let m := copyIfValid pm m "MaxAltitude" "EnhancedMaxAltitude" 0xFFFF
   copyIfValid pm m "MinAltitude" "EnhancedMinAltitude" 0xFFFF
 
-def expandRecord (pm : PMsg) (m : Msg) (g : Globals) : Msg × Globals :=
-  let m := copyIfValid pm m "Altitude" "EnhancedAltitude" 0xFFFF
-  let m := copyIfValid pm m "Speed" "EnhancedSpeed" 0xFFFF
-  -- compressed_speed_distance
-  let (m, g) :=
-    match pm.idx "CompressedSpeedDistance", pm.idx "Speed", pm.idx "Distance" with
-    | some ci, some si, some di =>
-      match m.vals[ci]? with
-      | some (.us (some [b0, b1, b2])) =>
-        if b0 ≠ 0xFF ∨ b1 ≠ 0xFF ∨ b2 ≠ 0xFF then
-          let m := m.setU si (b0 ||| ((b1 &&& 0x0F) <<< 8))
-          let a := if g.dist.present then g.dist else Accu.new 12
-          -- uint32(b1>>4) | uint32(b2<<4): the second shift is evaluated in uint8
-          let (a, v) := a.accumulate ((b1 >>> 4) ||| ((b2 <<< 4) % 256))
-          (m.setU di v, { g with dist := a })
-        else (m, g)
-      | _ => (m, g)
-    | _, _, _ => (m, g)
-  let (m, g) :=
-    match pm.idx "Cycles", pm.idx "TotalCycles" with
-    | some ci, some ti =>
-      match m.getU ci with
-      | some c =>
-        if c ≠ 0xFF then
-          let a := if g.cyc.present then g.cyc else Accu.zero
-          let (a, v) := a.accumulate c
-          (m.setU ti v, { g with cyc := a })
-        else (m, g)
-      | none => (m, g)
-    | _, _ => (m, g)
+/-- compressed_speed_distance → speed (12 bits) and accumulated distance (12 bits) -/
+def expandCsd (pm : PMsg) (m : Msg) (g : Globals) : Msg × Globals :=
+  match pm.idx "CompressedSpeedDistance", pm.idx "Speed", pm.idx "Distance" with
+  | some ci, some si, some di =>
+    match m.vals[ci]? with
+    | some (.us (some [b0, b1, b2])) =>
+      if b0 ≠ 0xFF ∨ b1 ≠ 0xFF ∨ b2 ≠ 0xFF then
+        let a := if g.dist.present then g.dist else Accu.new 12
+        -- uint32(b1>>4) | uint32(b2<<4): the second shift is evaluated in uint8
+        let r := a.accumulate ((b1 >>> 4) ||| ((b2 <<< 4) % 256))
+        ((m.setU si (b0 ||| ((b1 &&& 0x0F) <<< 8))).setU di r.2, { g with dist := r.1 })
+      else (m, g)
+    | _ => (m, g)
+  | _, _, _ => (m, g)
+
+/-- cycles → total_cycles (accumulated) -/
+def expandCycles (pm : PMsg) (m : Msg) (g : Globals) : Msg × Globals :=
+  match pm.idx "Cycles", pm.idx "TotalCycles" with
+  | some ci, some ti =>
+    match m.getU ci with
+    | some c =>
+      if c ≠ 0xFF then
+        let a := if g.cyc.present then g.cyc else Accu.zero
+        let r := a.accumulate c
+        (m.setU ti r.2, { g with cyc := r.1 })
+      else (m, g)
+    | none => (m, g)
+  | _, _ => (m, g)
+
+/-- compressed_accumulated_power → accumulated_power (accumulated) -/
+def expandPower (pm : PMsg) (m : Msg) (g : Globals) : Msg × Globals :=
   match pm.idx "CompressedAccumulatedPower", pm.idx "AccumulatedPower" with
   | some ci, some ai =>
     match m.getU ci with
     | some c =>
       if c ≠ 0xFFFF then
         let a := if g.pow.present then g.pow else Accu.zero
-        let (a, v) := a.accumulate c
-        (m.setU ai v, { g with pow := a })
+        let r := a.accumulate c
+        (m.setU ai r.2, { g with pow := r.1 })
       else (m, g)
     | none => (m, g)
   | _, _ => (m, g)
 
+def expandRecord (pm : PMsg) (m : Msg) (g : Globals) : Msg × Globals :=
+  let m := copyIfValid pm m "Altitude" "EnhancedAltitude" 0xFFFF
+  let m := copyIfValid pm m "Speed" "EnhancedSpeed" 0xFFFF
+  let r1 := expandCsd pm m g
+  let r2 := expandCycles pm r1.1 r1.2
+  expandPower pm r2.1 r2.2
+
 def evSportPoint : Nat := 33
 def evFrontGearChange : Nat := 42
 def evRearGearChange : Nat := 43
+
+/-- score / gear components of event data -/
+def expandEventData (pm : PMsg) (m : Msg) (d ev : Nat) : Msg :=
+  if d ≠ 0xFFFFFFFF then
+    if ev = evSportPoint then
+      match pm.idx "Score", pm.idx "OpponentScore" with
+      | some s, some o => (m.setU s (d % 65536)).setU o ((d / 65536) % 65536)
+      | _, _ => m
+    else if ev = evFrontGearChange ∨ ev = evRearGearChange then
+      match pm.idx "RearGearNum", pm.idx "RearGear", pm.idx "FrontGearNum", pm.idx "FrontGear" with
+      | some a, some b, some c, some e =>
+        (((m.setU a (d % 256)).setU b ((d / 256) % 256)).setU c ((d / 65536) % 256)).setU e ((d / 16777216) % 256)
+      | _, _, _, _ => m
+    else m
+  else m
 
 def expandEvent (pm : PMsg) (m : Msg) : Msg :=
   let m := copyIfValid pm m "Data16" "Data" 0xFFFF
   match pm.idx "Data", pm.idx "Event" with
   | some di, some ei =>
     match m.getU di, m.getU ei with
-    | some d, some ev =>
-      if d ≠ 0xFFFFFFFF then
-        if ev = evSportPoint then
-          match pm.idx "Score", pm.idx "OpponentScore" with
-          | some s, some o => (m.setU s (d % 65536)).setU o ((d / 65536) % 65536)
-          | _, _ => m
-        else if ev = evFrontGearChange ∨ ev = evRearGearChange then
-          match pm.idx "RearGearNum", pm.idx "RearGear", pm.idx "FrontGearNum", pm.idx "FrontGear" with
-          | some a, some b, some c, some e =>
-            (((m.setU a (d % 256)).setU b ((d / 256) % 256)).setU c ((d / 65536) % 256)).setU e ((d / 16777216) % 256)
-          | _, _, _, _ => m
-        else m
-      else m
+    | some d, some ev => expandEventData pm m d ev
     | _, _ => m
   | _, _ => m
 
@@ -219,6 +230,13 @@ def FileSt.render (P : Profile) (f : FileSt) : String :=
     "E[" ++ joinWith "|" (f.devIds.map Msg.render) ++ "]",
     "UM" ++ renderUnkM f.unkM,
     "UF" ++ renderUnkF f.unkF,
-    "K" ++ cont ]
+    "K" ++ cont,
+    "A" ++ String.ofList (P.accessors.map fun (_, ts) =>
+      -- the accessor checks FileId.Type and returns the field for its own type
+      if ts.contains (fileTypeOf f) then
+        (match f.cidx, P.initAns (fileTypeOf f) with
+          | some i, .container j => if i = j then 'c' else 'n'
+          | _, _ => 'n')
+      else 'e') ]
 
 end Fit
